@@ -52,8 +52,8 @@ def install_line_length_monitor(ctx):
             if before is not None:
                 delta = self._file.tell() - before
                 ctx.monitor('line_length_writeline')
-                first = _lens.setdefault(id(self), delta)
-                expected = getattr(self, '_atomline_bytesize', None) or first
+                first = self.__dict__.setdefault('_gmv_first_record_bytes', delta)
+                expected = first
                 if delta != expected:
                     ctx.violation('line-length-varies',
                                   f'record {atomlist} added {delta} bytes, first record of this file {expected}',
@@ -91,6 +91,8 @@ def cases(ctx):
     n = 1200 if ctx.tier == 'quick' else 100000
     for i in range(n):
         yield {'i': i}
+    for i in range(40 if ctx.tier == 'quick' else 2000):
+        yield {'i': i, 'api': True}
 
 
 def classify_number(n):
@@ -143,8 +145,44 @@ def compare(ctx, spec, path, recs_lib, box_lib, title_lib, natoms_lib, which):
             ctx.violation(f'title-differs:{which}', f'wrote {spec["title"]!r} read {t!r}', witness=w)
 
 
+def run_api(ctx, case):
+    """The same round trip through the component-level writers (Residue.write_gro,
+    Molecule.write_gro): what a user gets when saving a molecule."""
+    from gaddlemaps.parsers import GroFile
+    from .. import gen
+    i = case['i']
+    rng = ctx.rng('api', i)
+    n = int(rng.integers(1, 30))
+    edges = gen.random_tree(rng, n)
+    pos = np.round(rng.uniform(-99, 99, (n, 3)), 3) if i % 2 else rng.uniform(-99, 99, (n, 3))
+    vel = rng.normal(size=(n, 3)) if i % 3 == 0 else None
+    ids = [int(x) for x in rng.integers(1, 100000, n)]
+    resid = int(rng.choice([1, 7, 9999, 99999, 12345]))
+    mol = gen.make_molecule('MOL', gen.atom_names(n, 'A'), edges, pos, resids=[resid] * n, vel=vel, atomids=ids)
+    obj = mol if i % 2 else mol.residues[0]
+    path = os.path.join(_tmp['dir'], f'api{os.getpid()}.gro')
+    ctx.count('evaluations')
+    ctx.hit('api:write_gro')
+    try:
+        obj.write_gro(path)
+        g = GroFile(path)
+        recs = g.readlines()
+        g.close()
+    except Exception as exc:  # noqa
+        ctx.violation(f'write_gro-roundtrip-raises:{type(exc).__name__}', str(exc)[:200], witness={'n': n, 'resid': resid, 'velocities': vel is not None})
+        return
+    ctx.monitor('roundtrip_library_reader')
+    spec = {'dec': 3, 'with_vel': vel is not None, 'box': None, 'title': None, 'format': 'default', 'declare_count': False,
+            'records': [{'resid': resid, 'resname': 'MOL', 'name': f'A{k}', 'atomid': ids[k], 'xyz': [float(x) for x in pos[k]],
+                         **({'vel': [float(x) for x in vel[k]]} if vel is not None else {})} for k in range(n)]}
+    compare(ctx, spec, path, recs, np.zeros((3, 3)), '', len(recs), 'library-reader')
+    ctx.nontrivial(('api', n, vel is not None, resid))
+
+
 def run_case(ctx, case):
     from gaddlemaps.parsers import GroFile
+    if case.get('api'):
+        return run_api(ctx, case)
     i = case['i']
     rng = ctx.rng('spec', i)
     force = {}
